@@ -267,6 +267,26 @@ theorem handle_inside_spec (cfg : Cfg) (pat : Pat) (target : Str) (fs : Str → 
       have := served_inside_spec cfg (pathOfTarget target) p fs hr hne hd
       exact ⟨this.1, this.2.1⟩
 
+/-- a whole request redirects only for a directory inside the root (the directory the decoded URL path denotes) -/
+theorem handle_redirect_inside_spec (cfg : Cfg) (pat : Pat) (target : Str) (fs : Str → Kind)
+    (hr : isAbs cfg.root = true) (hne : Spec.resolve cfg.root ≠ [])
+    (hd : ∀ d, cfg.defaultFile = some d → Good d) (loc : Str)
+    (h : (handle cfg pat target fs).1 = .redirect loc) :
+    ∃ g p, capture pat (pathOfTarget target) = some g ∧ decodeArg g = some p ∧
+      Spec.inside cfg.root (absolutePath cfg.root p) = true ∧ fs (absolutePath cfg.root p) = .dir := by
+  unfold handle at h
+  simp only [] at h
+  split at h
+  · cases h
+  split at h
+  · cases h
+  · rename_i g hg
+    split at h
+    · cases h
+    · rename_i p hp
+      have := (served_inside_spec cfg (pathOfTarget target) p fs hr hne hd).2.2 loc h
+      exact ⟨g, p, hg, hp, this.1, this.2⟩
+
 /-- **handle_outcome_cases.**  A whole request ends in: a served file, a directory redirect, 403, 404 (from the handler or
 because the URL pattern did not match) — or 400, and that only when the request line is malformed (the target is empty or
 has a character outside `[\x21-\x7e\x80-\xff]`: rejected by the HTTP parser) or the captured group is not percent-encoded
